@@ -44,6 +44,17 @@ pub fn pad_field(args: &[String]) -> String {
         texts.extend(["ééééé", "añb", "日本語", "a日b", "\u{1b}[1mbold\u{1b}[0m", "e\u{301}e\u{301}e\u{301}"]);
     }
     let mut tried = 0;
+    // long paddings (a padding run written in blocks must still add up): a few texts, widths around multiples of 32
+    for s in ["", "abc", "hello world"] {
+        for w in [31usize, 32, 33, 34, 35, 43, 63, 64, 65, 66, 96, 100, 128, 150] {
+            for al in 0..3u8 {
+                tried += 1;
+                if let Some(m) = check(s, w, al, false) {
+                    return format!("{{\"found\": true, \"clause\": {}, \"tried\": {}, \"input\": {{\"text\": {}, \"width\": {}, \"align\": {}, \"truncate\": false}}, \"rerun\": {}}}", crate::js(&m), tried, crate::js(s), w, al, crate::js(&format!("replay pad_field '{}' {} {} false", s, w, al)));
+                }
+            }
+        }
+    }
     for s in &texts {
         for w in 0..=12usize {
             for al in 0..3u8 {
